@@ -38,6 +38,9 @@ func MatchScenario(t *rapid.T) sim.CScenario {
 		sc.Cfg.Faults = append(sc.Cfg.Faults, sim.Fault{Op: "send", At: rapid.IntRange(1, 4).Draw(t, "faultat"), Kind: "err"})
 	}
 	sc.Cfg.NoHandlers = rapid.IntRange(0, 3).Draw(t, "nohandlers") == 0
+	if !sc.Cfg.NoHandlers {
+		sc.Cfg.OnlyHandler = rapid.SampledFrom([]string{"", "", "notify", "callback"}).Draw(t, "onlyhandler")
+	}
 	nops := rapid.IntRange(1, 4).Draw(t, "nops")
 	var want []entry
 	k := 0
